@@ -171,7 +171,7 @@ func (Prop) Generate(seed uint64, tier string) *core.Plan {
 		case 2:
 			body += "use(\"missing.p\")\n"
 		}
-		w.Files = append(w.Files, File{Name: names[i], Kind: "file", Content: body})
+		w.Files = append(w.Files, File{Name: names[i], Kind: "file", Content: corpus.Layout(r, body)})
 	}
 	// decoys
 	if r.Intn(2) == 0 {
